@@ -503,4 +503,10 @@ mod eio_impl {
 }
 
 pub const EIO_VERSION: &str = if cfg!(feature = "eio06") { "0.6" } else { "0.4" };
-pub const EIO_BUILD: &str = if cfg!(feature = "eio06") { "eio06" } else { "eio04" };
+pub const EIO_BUILD: &str = if !cfg!(feature = "eio06") {
+    "eio04"
+} else if cfg!(debug_assertions) {
+    "eio06"
+} else {
+    "plain"
+};
